@@ -5,19 +5,23 @@ _INHERITED = ('fragid', 'fragname', 'weight')
 _KEPT = _INHERITED + ('element', 'single_h_frag')
 
 # ------------------------------------------------------------------------------------------------ assumed: pysmiles
-contract(
+_T_CORRECT_AROMATIC_RINGS = dict(
     target='pysmiles.smiles_helper.correct_aromatic_rings', trusted=True,
     params=[('mol', None), ('strict', 'False')], types={'mol': 'Graph:mol', 'strict': 'Bool'}, returns=None,
     modifies=["mol:attr:aromatic,attr:hcount,eattrs"], raises={'SyntaxError': {'when': None}},
     assumes=['pysmiles.correct_aromatic_rings only rewrites aromatic flags / hydrogen counts / bond orders (or raises SyntaxError)'],
 )
-contract(
+contract(**_T_CORRECT_AROMATIC_RINGS)
+contract(**dict(_T_CORRECT_AROMATIC_RINGS, variant='tmpl', types={k: v.replace('Graph:mol', 'Graph:tmpl') for k, v in _T_CORRECT_AROMATIC_RINGS['types'].items()}))
+_T_FILL_VALENCE = dict(
     target='pysmiles.smiles_helper.fill_valence', trusted=True,
     params=[('mol', None), ('respect_hcount', 'True'), ('respect_bond_order', 'True'), ('max_bond_order', '3')],
     types={'mol': 'Graph:mol', 'respect_hcount': 'Bool'}, returns=None, modifies=["mol:attr:hcount"],
     assumes=['pysmiles.fill_valence only writes hcount'],
 )
-contract(
+contract(**_T_FILL_VALENCE)
+contract(**dict(_T_FILL_VALENCE, variant='tmpl', types={k: v.replace('Graph:mol', 'Graph:tmpl') for k, v in _T_FILL_VALENCE['types'].items()}))
+_T_ADD_EXPLICIT_HYDROGENS = dict(
     target='pysmiles.smiles_helper.add_explicit_hydrogens', trusted=True,
     params=[('mol', None)], types={'mol': 'Graph:mol'}, returns=None, modifies=["mol"],
     ensures=[
@@ -35,6 +39,8 @@ contract(
     assumes=["pysmiles.add_explicit_hydrogens adds bare [H] nodes (element only) bonded to existing atoms and changes nothing else "
              "but the hcount attribute"],
 )
+contract(**_T_ADD_EXPLICIT_HYDROGENS)
+contract(**dict(_T_ADD_EXPLICIT_HYDROGENS, variant='tmpl', types={k: v.replace('Graph:mol', 'Graph:tmpl') for k, v in _T_ADD_EXPLICIT_HYDROGENS['types'].items()}))
 
 
 def _ex_rebuild():
@@ -72,7 +78,7 @@ def _new_h(attr, upto):
             "attr(mol_graph, m, '%(a)s') == attr(mol_graph, n, '%(a)s') for m in nodes(mol_graph))))") % {'a': attr}
 
 
-contract(
+_RB = dict(
     target='cgsmiles.pysmiles_utils:rebuild_h_atoms', serves=['C02', 'C09'],
     types={'mol_graph': 'Graph:mol', 'keep_bonding': 'Bool'},
     fix={'keep_bonding': False, 'copy_attrs': ['fragid', 'fragname', 'weight']}, returns=None,
@@ -84,7 +90,12 @@ contract(
     ensures=[
         # atoms that were there keep membership, name and weight — explicitly written hydrogens keep their own annotations, zero included
         _OLD_KEPT,
-    ] + [_new_h(a, '') for a in _INHERITED],
+    ] + [_new_h(a, '') for a in _INHERITED] + [
+        # elements: the atoms that were there keep theirs, everything that was added is a hydrogen
+        "forall_int(lambda n: implies(old(has_node(mol_graph, n)), has_node(mol_graph, n) and attr_unchanged(mol_graph, n, 'element')))",
+        "forall_int(lambda n: implies(has_node(mol_graph, n) and not old(has_node(mol_graph, n)), "
+        "has_attr(mol_graph, n, 'element') and attr(mol_graph, n, 'element') == 'H'))",
+    ],
     # the same two clauses in a form the run-time monitor can evaluate (bounded tier and refuter)
     native_ensures=[
         "all(implies(old(has_node(mol_graph, n)), " + " and ".join("attr_unchanged(mol_graph, n, '%s')" % a for a in _INHERITED) + ") for n in nodes(mol_graph))",
@@ -100,4 +111,50 @@ contract(
                    ])},
     heap_invariants=['fragid'],
     examples=_ex_rebuild,
+)
+contract(**_RB)
+# the same function applied to a fragment template (membership is a plain index there, not a list): used by compute_mass
+_RBT = dict(_RB)
+_RBT.update(variant='tmpl', types={'mol_graph': 'Graph:tmpl', 'keep_bonding': 'Bool'}, heap_invariants=[], examples=None, native_ensures=[])
+contract(**_RBT)
+
+
+
+# ------------------------------------------------------------------------------------------------ compute_mass
+def _ex_mass():
+    import logging
+    logging.getLogger('pysmiles').setLevel(logging.ERROR)
+    from cgsmiles.read_fragments import read_fragments
+    for text in ["{#PEO=[$]COC[$]}", "{#PS=[$]CC[$]c1ccccc1,#OH=[$]O}", "{#A=[>]CC[<]C(=O)OC}", "{#H=[$][H],#N=[$]N([H;0.5])C}", "{#B=[$]=CC=[$]}"]:
+        try:
+            frags = read_fragments(text, all_atom=True)
+        except Exception:      # noqa: preparation failed (a changed tree): this example is skipped
+            continue
+        for name, g in frags.items():
+            yield {'input_molecule': g}
+
+
+contract(
+    target='cgsmiles.pysmiles_utils:compute_mass', serves=['C17', 'C09'],
+    types={'input_molecule': 'Graph:tmpl'}, returns='Real', new_graph_schema='tmpl',
+    requires=[
+        # what rebuild_h_atoms needs of the (copied) fragment, and every element is in the periodic table
+        "all(has_attr(input_molecule, n, 'element') and " + " and ".join("has_attr(input_molecule, n, '%s')" % a for a in _INHERITED)
+        + " for n in nodes(input_molecule))",
+        "all(implies(" + _H_NODE.replace('mol_graph', 'input_molecule') + " and not " + _SINGLE.replace('mol_graph', 'input_molecule')
+        + ", has_neighbor(input_molecule, n)) for n in nodes(input_molecule))",
+        "all(known_element(attr(input_molecule, n, 'element')) for n in nodes(input_molecule)) and known_element('H')",
+    ],
+    ensures=[
+        # the mass is computed on a copy: the fragment handed in is left exactly as it was (frame), the result is positive for a
+        # non-empty fragment
+        "implies(n_nodes(input_molecule) > 0, result > 0)",
+    ],
+    # the frame (modifies nothing) in a form the run-time monitor can evaluate
+    native_ensures=["n_nodes(input_molecule) == old(n_nodes(input_molecule)) and n_edges(input_molecule) == old(n_edges(input_molecule)) and "
+                    "all(node_unchanged(input_molecule, n) for n in nodes(input_molecule))"],
+    raises={'SyntaxError': {'when': None}},
+    modifies=[], allocates=True,
+    loops={0: Loop(over='molecule.nodes', invariant=["mass >= 0", "implies(_i0 > 0, mass > 0)"])},
+    examples=_ex_mass,
 )
